@@ -422,6 +422,10 @@ func (c *fctx) stmt() []*S {
 				if r.Bool() {
 					text = fmt.Sprintf("%s, %s := %s, %s\n_ = %s", name, old, e2, e1, name)
 				}
+				if r.Chance(2, 3) {
+					// observe both variables right away
+					text += fmt.Sprintf("\nvrt.E(%d, %s, %s)", c.g.nextTag(), old, name)
+				}
 				return []*S{{K: SRaw, ID: c.g.id(), Src: text}}
 			}
 		}
@@ -747,6 +751,33 @@ func (c *fctx) forStmt() []*S {
 			return []*S{decl, loop}
 		}
 		loop.Body = append([]*S{{K: SIncDec, Name: ctr, Op: "++"}}, d.block(nb)...)
+		if (loop.Post.K == SYield || loop.Post.K == SYieldFrom) && r.Chance(2, 5) {
+			// a continue that must still run the yielding post statement, reached through a
+			// switch (it targets the loop, not the switch), optionally after a yield of the
+			// same iteration, under an if, or in a nested block
+			cont := []*S{{K: SContinue, ID: c.g.id()}}
+			switch r.Intn(4) {
+			case 0:
+				cont = []*S{{K: SIf, ID: c.g.id(), E: bin(v(ctr), "<", lit(3)), Body: cont}}
+			case 1:
+				cont = append([]*S{{K: SYield, ID: c.g.id(), E: bin(v(ctr), "+", lit(r.Range(50, 60)))}}, cont...)
+			case 2:
+				cont = []*S{{K: SBlock, ID: c.g.id(), Body: append([]*S{c.eff()}, cont...)}}
+			}
+			sel := bin(bin(v(ctr), "%", lit(2)), "==", lit(r.Intn(2)))
+			var sw *S
+			switch r.Intn(3) {
+			case 0: // tag-less
+				sw = &S{K: SSwitch, ID: c.g.id(), Cases: []*Case{{Vals: []*X{sel}, Body: cont}}}
+			case 1: // tagged, with a default that falls out
+				sw = &S{K: SSwitch, ID: c.g.id(), E: bin(v(ctr), "%", lit(3)), Cases: []*Case{{Vals: []*X{lit(r.Intn(3))}, Body: cont}, {Default: true, Body: []*S{c.eff()}}}}
+			default: // the continue sits in the default clause
+				sw = &S{K: SSwitch, ID: c.g.id(), E: bin(v(ctr), "%", lit(2)), Cases: []*Case{{Vals: []*X{lit(r.Intn(2))}, Body: []*S{c.eff()}}, {Default: true, Body: cont}}}
+			}
+			pos := 1 + r.Intn(len(loop.Body))
+			loop.Body = append(loop.Body[:pos:pos], append([]*S{sw}, loop.Body[pos:]...)...)
+			c.g.mark("continue_inside_switch_in_loop_with_yielding_post")
+		}
 		if loop.Post.K == SYield && r.Chance(1, 2) {
 			// let the post read an OUTER variable whose name the body re-declares at its top level
 			outer := map[string]bool{}
